@@ -112,8 +112,9 @@ LoadOutcome checked_load(const uint8_t* win, size_t n, const LoadOpts& o, MV* tr
     } else if (ref.st == R_ITEM) {
       // is it the suffix that changes the outcome (C14), or is the item rejected even alone (C02, not claimed)?
       struct cbor_load_result r2; sa_begin(FaultSpec()); cbor_item_t* alone = cbor_load(w, (size_t)ref.read, &r2); sa_end();
+      bool alone_ok = alone != nullptr;
       if (alone) { sa_begin(FaultSpec()); cbor_decref(&alone); sa_end(); }
-      fail(alone || ref.read == n ? "C14" : "C02", "acceptable-item-rejected", where + fmt(": NULL with %s at %zu; the buffer starts with a complete well-formed item of %llu byte(s)%s", code_name(out.code), (size_t)out.position, (unsigned long long)ref.read, alone ? ", which decodes when nothing follows it" : ""));
+      fail(alone_ok || ref.read == n ? "C14" : "C02", "acceptable-item-rejected", where + fmt(": NULL with %s at %zu; the buffer starts with a complete well-formed item of %llu byte(s)%s", code_name(out.code), (size_t)out.position, (unsigned long long)ref.read, alone_ok ? ", which decodes when nothing follows it" : ""));
     } else {
       if (!ref.admits(rs, out.position) && !(ref.st == R_NODATA && rs == R_NODATA))
         fail("C05", "wrong-code-or-position", where + fmt(": %s at %zu; expected %s at %llu%s", code_name(out.code), (size_t)out.position, rstatus_name(ref.st), (unsigned long long)ref.pos, ref.alt ? fmt(" (or %s at %llu)", rstatus_name(ref.alt_st), (unsigned long long)ref.alt_pos).c_str() : ""));
